@@ -1,0 +1,26 @@
+//go:build verif
+
+// Contracts for package backend, read by /verif/govc (contract-based deductive
+// verification). This file contains comments only and is compiled only with
+// the build tag "verif"; it does not exist for the normal build and tests.
+package backend
+
+// ---- C13: range reads ------------------------------------------------------
+// The envelope clauses are independent of how the header is tokenised. The
+// interval clauses fix the meaning of "bytes=a-b" / "bytes=a-": the header is
+// cut at '=' and '-' (the HTTP range grammar), the numbers are what ParseInt
+// reads, and the interval arithmetic is the one the property states.
+
+//@ func ParseGetObjectRange
+//@   let spec = strings.Split(acceptRange, "=")[1]
+//@   let first = strconv.ParseInt(strings.Split(spec, "-")[0], 10, 64).0
+//@   let lastTxt = strings.Split(spec, "-")[1]
+//@   let last = strconv.ParseInt(lastTxt, 10, 64).0
+//@   ensures {C13} [valid-envelope] err == nil && ret2 ==> 0 <= ret0 && ret0 < size && 1 <= ret1 && ret0 + ret1 <= size
+//@   ensures {C13} [invalid-whole] err == nil && !ret2 ==> ret0 == 0 && ret1 == size
+//@   ensures {C13} [error-not-valid] err != nil ==> !ret2
+//@   ensures {C13} [empty-header] acceptRange == "" ==> err == nil && !ret2
+//@   ensures {C13} [interval-open] err == nil && ret2 && lastTxt == "" ==> ret0 == first && ret1 == size - first
+//@   ensures {C13} [interval-closed] err == nil && ret2 && lastTxt != "" ==> ret0 == first && ret1 == min(last, size - 1) - first + 1
+//@   ensures {C13} [beyond-end] acceptRange != "" && len(strings.Split(acceptRange, "=")) == 2 && strings.Split(acceptRange, "=")[0] == "bytes" && len(strings.Split(spec, "-")) == 2 \
+//@        && strconv.ParseInt(strings.Split(spec, "-")[0], 10, 64).1 == nil && first >= size ==> err != nil
